@@ -1,7 +1,7 @@
 (* Props_C11.v — property theorems for C11 (only statements closed by [exact]). *)
 From Coq Require Import List String Bool Arith.
 Import ListNotations.
-From HolpyV Require Import Kernel Sem SemLemmas Falsify Sound DefCheck Conservative.
+From HolpyV Require Import Kernel Sem SemLemmas Falsify Sound DefCheck Conservative Unify UnifySound.
 
 (* What the repaired acceptance test of Definition.parse guarantees about an
    accepted defining equation whose right side does not mention the constant
@@ -53,3 +53,25 @@ Example C11_example_shape :
   def_shape "nand" (TFun B (TFun B B)) [("p", B); ("q", B)] B
     (Comb (Const "neg" (TFun B B)) (Comb (Comb (Const "conj" (TFun B (TFun B B))) (Var "p" B)) (Var "q" B))) = true.
 Proof. vm_compute. reflexivity. Qed.
+
+(* Overloaded constants (result code 2 of the acceptance test): an occurrence of
+   the constant on the right is tolerated only at a type that does not overlap
+   the declared one.  The model of types_overlap (variables of the two types
+   independent, TVar and STVar both instantiable) is right whenever it answers
+   "no overlap": no instantiation of the variables of either side makes the two
+   types equal.  (The converse -- "overlap" answers are witnessed by a common
+   instance -- is not proved; a wrong "overlap" only rejects a definition.) *)
+Theorem C11_no_overlap_is_right : forall fuel T1 T2, overlap fuel T1 T2 = Some false ->
+  forall f g, ty_inst f T1 <> ty_inst g T2.
+Proof. exact overlap_complete. Qed.
+Print Assumptions C11_no_overlap_is_right.
+
+(* non-vacuity, both verdicts: 'a list list vs 'a list overlap once the variables are
+   independent; nat list vs nat list list do not; 'a => 'a list vs 'a => 'a list list
+   are separated by the occurs check *)
+Example C11_overlap_examples :
+  let a := TVar "a" in let L T := TConst "list" [T] in let N := TConst "nat" [] in
+  overlap 100 (L (L a)) (L a) = Some true /\
+  overlap 100 (L N) (L (L N)) = Some false /\
+  overlap 100 (TFun a (L a)) (TFun a (L (L a))) = Some false.
+Proof. vm_compute. auto. Qed.
